@@ -127,6 +127,49 @@ Theorem release_lemma : forall c f t, 1 <= c_threshold c -> f <= t ->
   step1 c (None, Some f) t = ((Some (1, t), None), false).
 Proof. intros c f t HT H. rewrite step1_release by exact H. apply step1_fresh. exact HT. Qed.
 
+(* ---------- 2b. below the threshold nothing is ever denied (window form) ---------- *)
+Lemma count_in_nonneg l a b : 0 <= count_in l a b.
+Proof. induction l as [|t r IH]; simpl; [lia|]. destruct ((a <=? t) && (t <=? b)); lia. Qed.
+Lemma windows_ok_tl c t r : windows_ok c (t :: r) -> windows_ok c r.
+Proof.
+  intros H a Ha. specialize (H a (or_intror Ha)). simpl in H.
+  destruct ((a <=? t) && (t <=? a + c_period c)); lia.
+Qed.
+Lemma step1_reset c n s t : 1 <= c_threshold c -> s + c_period c < t ->
+  step1 c (Some (n, s), None) t = ((Some (1, t), None), false).
+Proof.
+  intros HT Ht. unfold step1, should_deny1, record_access1, inc_and_check. simpl.
+  destruct (s + c_period c <? t) eqn:E; [|lia]. simpl. destruct (c_threshold c <? 1) eqn:E2; [lia|]. reflexivity.
+Qed.
+
+Lemma never_denied_open c : 0 <= c_period c -> forall ts n s,
+  nondecr s ts -> windows_ok c ts -> n + count_in ts s (s + c_period c) <= c_threshold c ->
+  run1 c (Some (n, s), None) ts = repeat false (length ts).
+Proof.
+  intros HP. induction ts as [|t r IH]; intros n s Hs Hw Hn; [reflexivity|].
+  destruct Hs as [Hst Hr]. cbn [run1 length repeat].
+  pose proof (Hw t (or_introl eq_refl)) as Hwt. cbn [count_in] in Hwt, Hn.
+  assert (Et : ((t <=? t) && (t <=? t + c_period c)) = true) by (apply andb_true_iff; split; apply Z.leb_le; lia).
+  rewrite Et in Hwt. pose proof (count_in_nonneg r t (t + c_period c)) as Hc0.
+  destruct (Z_le_gt_dec t (s + c_period c)) as [Hle|Hgt].
+  - assert (Es : ((s <=? t) && (t <=? s + c_period c)) = true) by (apply andb_true_iff; split; apply Z.leb_le; lia).
+    rewrite Es in Hn. pose proof (count_in_nonneg r s (s + c_period c)) as Hc1.
+    rewrite step1_count by lia. f_equal. apply IH; [|apply (windows_ok_tl c t r Hw)|lia].
+    clear -Hr Hst. destruct r as [|x r]; [exact I|]. destruct Hr as [H1 H2]. split; [lia|exact H2].
+  - rewrite step1_reset by lia. f_equal. apply IH; [exact Hr|apply (windows_ok_tl c t r Hw)|lia].
+Qed.
+
+Theorem below_threshold_never_denied_lemma : forall c ts,
+  0 <= c_period c -> (match ts with [] => True | t :: r => nondecr t r end) -> windows_ok c ts ->
+  run1 c (None, None) ts = repeat false (length ts).
+Proof.
+  intros c ts HP Hs Hw. destruct ts as [|t r]; [reflexivity|]. cbn [run1 length repeat].
+  pose proof (Hw t (or_introl eq_refl)) as Hwt. cbn [count_in] in Hwt.
+  assert (Et : ((t <=? t) && (t <=? t + c_period c)) = true) by (apply andb_true_iff; split; apply Z.leb_le; lia).
+  rewrite Et in Hwt. pose proof (count_in_nonneg r t (t + c_period c)) as Hc0.
+  rewrite step1_fresh by lia. f_equal. apply never_denied_open; [exact HP|exact Hs|apply (windows_ok_tl c t r Hw)|lia].
+Qed.
+
 (* ---------- 3. refinement: the model equals the reference automaton of RunC53 ---------- *)
 Definition abs (ap : option counter * option Z) : kstate :=
   match ap with
